@@ -2099,7 +2099,12 @@ class ImportanceNestedSampler(BaseNestedSampler):
         its = np.arange(self.iteration)
 
         for a in ax:
-            a.vlines(self.checkpoint_iterations, 0, 1, color="C2")
+            a.vlines(
+                self.history.get("checkpoint_iterations", []),
+                0,
+                1,
+                color="C2",
+            )
 
         # Counter for each plot
         m = 0
